@@ -158,6 +158,8 @@ def check_c19(run):
             c["silent"] = True
             c["gated"] = False
             c["id"] = 5000000 + c["id"]
+            if c.get("kind") == "conc" and c.get("target") == "engine" and len(out) % 2 == 0:
+                c["twin"] = True      # two rules with conc blocks of their own, run at the same time
             out.append(c)
         return out
     for label, drv, ss in (("exec", "execdrv", exec_sessions), ("body", "bodydrv", conc + loc), ("pool", "pooldrv", pool_sessions)):
